@@ -524,6 +524,42 @@ func c15Ops() []c15Op {
 		}
 		return "db " + hx8(db.Bytes()), nil
 	}))
+	// the plain file helpers of the wrapper (twins of the variable operations). A short count
+	// without an error is outside io.Writer's contract and only judged for the variable writers,
+	// which guard against it explicitly; here: errors at create / write / close / open / read.
+	ops = append(ops, c15Op{"FSWrapper.WriteFile", []string{"err", "eagain"}, func(plan *faultPlan) c15Result {
+		rec := recfs.New()
+		c15FsPlan(rec, plan)
+		fw := fswrapper.NewMemoryWrapper()
+		fw.SetFS(rec)
+		data := fill(300, 0x44)
+		err := fw.WriteFile("/sys/firmware/efi/efivars/file", data, 0644)
+		stored := ""
+		if fh, oerr := rec.Inner.Open("/sys/firmware/efi/efivars/file"); oerr == nil {
+			b, _ := io.ReadAll(fh)
+			fh.Close()
+			stored = hx8(b)
+		}
+		return c15Result{err: err, value: "stored " + stored}
+	}})
+	ops = append(ops, fsRead("FSWrapper.ReadFile", func(rec *recfs.Fs) (string, error) {
+		fw := fswrapper.NewMemoryWrapper()
+		fw.SetFS(rec)
+		b, err := fw.ReadFile(path.Join("/sys/firmware/efi/efivars", "db-"+refFormat(*efivar.Db.GUID)))
+		if err != nil {
+			return "", err
+		}
+		return "file " + hx8(b), nil
+	}))
+	ops = append(ops, fsRead("FSWrapper.ReadEfivarsWithGuid", func(rec *recfs.Fs) (string, error) {
+		fw := fswrapper.NewMemoryWrapper()
+		fw.SetFS(rec)
+		at, buf, err := fw.ReadEfivarsWithGuid("db", *efivar.Db.GUID)
+		if err != nil {
+			return "", err
+		}
+		return fmt.Sprintf("attrs %#x value %s", uint32(at), hx8(buf.Bytes())), nil
+	}))
 	ops = append(ops, fsRead("attributes.ReadEfivars (legacy)", func(rec *recfs.Fs) (string, error) {
 		efifs.SetFS(rec)
 		at, buf, err := attributes.ReadEfivars("db")
@@ -632,7 +668,9 @@ func c15Run(c *hx.Ctx, tier, unit string) {
 		transientReader := strings.HasPrefix(seam, "reader") && (!persistent || strings.HasPrefix(op.name, "one image object:") || kind == "persistent short")
 		shortRead := strings.HasSuffix(kind, "short") && strings.HasSuffix(seam, "f.Read")
 		readClose := strings.HasSuffix(seam, "f.Close") && (strings.Contains(op.name, "Get") || strings.Contains(op.name, "Read"))
-		if transientReader || shortRead || readClose {
+		// a failed Stat on the read path of the plain file helper only costs it its size hint
+		statHint := strings.HasSuffix(seam, "f.Stat") && op.name == "FSWrapper.ReadFile"
+		if transientReader || shortRead || readClose || statHint {
 			if r.value != ref.value {
 				c.Outcome("violation")
 				c.Violation(fmt.Sprintf("C15 %s: success with a wrong value after %s at %s", op.name, kind, seamClass(seam)), detail)
